@@ -177,6 +177,26 @@ CLAIMED = {
              "KNOWN-FINDING. OpenSSL/c-ares internals are assumed not to sleep on non-blocking descriptors.",
         technique="Lean 4 proofs (wrapper model; decide over site tables regenerated from source) + differential correspondence + wrapped live-socket runs",
         ref="DESIGN.md §5 C05"),
+    "C14": dict(
+        text="Lean 4 proofs on a model of ctl.c's request handling, for EVERY attribute set (any count, names, value sizes), every "
+             "request (any size, type number, any 64 bytes in the name field), any previous content of the session's reused reply "
+             "buffer and any sequence of session events: the get-all reply builder stays within attrs[64] x name[64] x "
+             "any_value[512] (C14_getall_bounded), tls.key is never disclosed (C14_key_never_disclosed), a get is answered with "
+             "exactly the in-process result or a rejection carrying its errno (C14_reply_equals_inprocess), get-all is the "
+             "in-process listing minus tls.key and minus what the wire format cannot carry, cut at capacity "
+             "(C14_getall_equals_inprocess), the reply type does not depend on the session's earlier replies "
+             "(C14_first_request_any), malformed requests are dropped (C14_malformed_dropped), the client-supplied name is read "
+             "only inside its field (C14_name_within_field), at most MAX_CLIENTS sessions exist (C14_sessions_bounded). "
+             "Constants and sizeof(struct ctl_proto_msg) are regenerated from the source. Tie: sys_ctl - raw SEQPACKET client and "
+             "the libxcmctl client against live sockets of six transports plus TLS with by-value credentials and a 30-SAN peer, "
+             "every reply compared with the in-process answer of the same run and with the model, ASan in the owner, a message "
+             "flow with requests in flight, control files gone after close.",
+        note="Found and fixed here: F-14a..d (four fix: commits). 'Passive' is checked as a runtime monitor (the data path keeps "
+             "delivering in order while requests are in flight), not as a theorem about the whole library state. utls sockets "
+             "delegate their control interface to their ux/tls sub-sockets, which are covered as such. C memory safety is "
+             "observed under ASan, the theorems are about the bounded-array model.",
+        technique="Lean 4 proofs (bounded reply builder, filter characterisation by induction, case analysis) + differential correspondence on live sockets",
+        ref="DESIGN.md §5 C14"),
 }
 
 PENDING_REASON = "not yet built in this round: no check is claimed for it (the design in DESIGN.md §5 stands; " \
